@@ -151,6 +151,19 @@ func (a AlterTableOperation) Children() []Node {
 			children = append(children, id)
 		}
 	}
+	if a.ColumnPosition != nil && a.ColumnPosition.After != nil {
+		children = append(children, a.ColumnPosition.After)
+	}
+	for _, part := range a.Partitions {
+		if part == nil {
+			continue
+		}
+		for _, col := range part.Columns {
+			if col != nil {
+				children = append(children, col)
+			}
+		}
+	}
 	if a.TableName.Name != "" {
 		children = append(children, a.TableName)
 	}
